@@ -12,7 +12,7 @@ S=$(mktemp -d /tmp/verif-mutant-repo.XXXXXX)
 cd "$HERE"
 for c in $P "$@"; do
   echo "=== VERIF_REPO=$S ./check $c   (with $PATCH applied)"
-  VERIF_REPO=$S timeout 2400 ./check $c 2>&1 | grep -E "^VIOLATION|^KNOWN-FINDING|^\[$c\]" | cut -c1-240 | head -12
+  VERIF_REPO=$S timeout 2400 ./check $c 2>&1 | grep -E "^VIOLATION|^KNOWN-FINDING|^\[$c\]" | cut -c1-240 | grep -v "^KNOWN-FINDING" | head -12
 done
 rm -rf $S
 git checkout -q -- evidence 2>/dev/null
